@@ -156,7 +156,7 @@ Definition use_quote_re1 (s : str) : bool :=
   match s with c :: r => uq_class c && uq_tail r | [] => false end.
 Definition use_quote_re2 (s : str) : bool :=
   match s with
-  | 48 :: 120 :: r => nonempty_all is_hex r
+  | a :: b :: r => (a =? 48) && (b =? 120) && nonempty_all is_hex r
   | _ => false
   end.
 Definition use_quote (s : str) : bool := use_quote_re1 s || use_quote_re2 s.
@@ -165,7 +165,7 @@ Definition use_quote (s : str) : bool := use_quote_re1 s || use_quote_re2 s.
 Definition any_octal11 (s : str) : bool :=
   let body := match s with c :: r => if (c =? c_minus) || (c =? c_plus) then r else s | [] => s end in
   match body with
-  | 48 :: r => nonempty_all (fun c => is_digit c || (c =? c_us)) r
+  | a :: r => (a =? 48) && nonempty_all (fun c => is_digit c || (c =? c_us)) r
   | _ => false
   end.
 
@@ -180,13 +180,18 @@ Definition is_oct (c : N) : bool := (48 <=? c) && (c <=? 55).
 Definition is_bin (c : N) : bool := (c =? 48) || (c =? 49).
 Definition rx_yaml_int (s : str) : bool :=
   match strip_sign s with
-  | [48] => true
-  | 48 :: 98 :: r => nonempty_all is_bin r
-  | 48 :: 111 :: r => nonempty_all is_oct r
-  | 48 :: 120 :: r => nonempty_all is_hex r
-  | 48 :: r => nonempty_all is_oct r
-  | c :: r => is_digit c && forallb is_digit r
   | [] => false
+  | c :: r =>
+    if c =? 48 then
+      match r with
+      | [] => true
+      | d :: r' =>
+        if d =? 98 then nonempty_all is_bin r'
+        else if d =? 111 then nonempty_all is_oct r'
+        else if d =? 120 then nonempty_all is_hex r'
+        else nonempty_all is_oct r
+      end
+    else is_digit c && forallb is_digit r
   end.
 
 (* decode.go rxYamlFloat:
@@ -207,12 +212,16 @@ Definition rx_opt_exp (l : str) : bool := match l with [] => true | _ => rx_exp 
 Definition rx_yaml_float (s : str) : bool :=
   let b := strip_sign s in
   let (d1, r1) := span is_digit b in
-  match d1, r1 with
-  | [], 46 :: r2 => let (d2, r3) := span is_digit r2 in
-                    (match d2 with [] => false | _ => rx_opt_exp r3 end)
-  | _ :: _, 46 :: r2 => let (d2, r3) := span is_digit r2 in rx_opt_exp r3
-  | _ :: _, _ :: _ => rx_exp r1
-  | _, _ => false
+  match r1 with
+  | [] => false
+  | d :: r2 =>
+    if d =? c_dot then
+      let (d2, r3) := span is_digit r2 in
+      match d1, d2 with
+      | [], [] => false
+      | _, _ => rx_opt_exp r3
+      end
+    else match d1 with [] => false | _ :: _ => rx_exp r1 end
   end.
 
 (* decode.go numberKind != ILLEGAL *)
@@ -690,13 +699,14 @@ Section Reader.
      probes, a newline for values). *)
   Definition read_any (p : nat) (root : bool) (col0 : bool) (suffix : str) (t : str) : option str :=
     match t with
-    | 124 :: _ => parse_literal p root t
-    | _ =>
-      if col0 && doc_marker t then None else
-      match read_flow_rest t with
-      | Some (v, rest) => if str_eqb rest suffix then Some v else None
-      | None => None
-      end
+    | [] => None
+    | c0 :: _ =>
+      if c0 =? c_bar then parse_literal p root t
+      else if col0 && doc_marker t then None
+      else match read_flow_rest t with
+           | Some (v, rest) => if str_eqb rest suffix then Some v else None
+           | None => None
+           end
     end.
 End Reader.
 
